@@ -41,6 +41,8 @@ def case(prof, op, n, args, tp):
 
 
 def cfg(maxf=None, minf=None, maxi=10, mini=-10, pnew=0.001, maxpts=25):
+    """the fields one generator does not read are varied too where the caller passes them: validity of the INTEGER interval must not
+    matter to FLOAT.RAND, nor the FLOAT interval or the new-name probability to INTEGER.RAND"""
     c = list(DEFAULT_CFG)
     c[0] = fbits(1.0) if maxf is None else maxf
     c[1] = fbits(-1.0) if minf is None else minf
@@ -49,7 +51,9 @@ def cfg(maxf=None, minf=None, maxi=10, mini=-10, pnew=0.001, maxpts=25):
 
 
 # tables 11 / 15 have the SIZE of tables 1 / 5 and other names (a cache keyed on the size would confuse them)
-BINDS = {0: [], 1: [("X", Z(1))], 11: [("Y", B(False))],
+# 21: a name that is its own definition; 22: keys with blank edges / an empty key (legal HashMap keys; the API can make them)
+BINDS = {0: [], 1: [("X", Z(1))], 11: [("Y", B(False))], 21: [("LOOP", [2, [ord(c) for c in "LOOP"]])],
+         22: [(" padded", Z(1)), ("tail\t", Z(2)), ("in side", Z(3))],
          15: [("P1", Z(1)), ("P2", Z(2)), ("P3", L()), ("P4", B(True)), ("P5", Z(5))],
          5: [("X", Z(1)), ("alpha", B(True)), ("b-c", L(Z(1), I("INTEGER.+"))), ("Q9", L()), ("INTEGER.FOO", Z(7))]}
 
